@@ -53,6 +53,7 @@ type FuncContract struct {
 	Preserves  []string // fields whose value in every pre-existing object is the same after the call (return or panic)
 	FieldCover []string // "T ignore=a,b": every field of struct type T is named in an ensures clause (or ignored on purpose)
 	Implements string   // slot key ("pkg.Type.field"): the slot's requires replace, and its ensures/frames extend, this contract
+	PureCalls  []string // callees with a pure_if contract whose condition is proved at every call here
 	Forget     []string // callees whose contracts this proof does not use (treated as uncontracted: havoc by write set)
 	Unfold     []string // opaque specs whose definitions this function's proof needs from callee contracts
 	DynPreserves []string // fields that code reached through dynamic calls is assumed to leave unchanged
@@ -467,6 +468,14 @@ func (cs *ContractSet) parseFile(path, pkg string) error {
 				lastText = nil
 			case "fieldcover":
 				cur.FieldCover = append(cur.FieldCover, rest)
+				lastText = nil
+			case "pure_calls":
+				for _, x := range strings.Fields(strings.ReplaceAll(rest, ",", " ")) {
+					if strings.HasPrefix(x, "(") || !strings.Contains(x, ".") {
+						x = pkg + "." + x
+					}
+					cur.PureCalls = append(cur.PureCalls, x)
+				}
 				lastText = nil
 			case "abstract_callee":
 				for _, x := range strings.Fields(strings.ReplaceAll(rest, ",", " ")) {
